@@ -8,6 +8,7 @@
 From Coq Require Import Reals QArith Lra List.
 From SpdVerif Require Import Model.FinSum Model.Hom Model.Hom2 Model.C10_Pyth Proofs.C10_pyth Model.C09_Total Proofs.C09_total Proofs.FinSum_lemmas Proofs.Cx_lemmas Proofs.C09_range Proofs.C09_dip
   Proofs.C09_struct Proofs.C09_exec Gen.HomSrc Proofs.C09_src.
+From SpdVerif Require Import Model.PMParams Gen.PMIntegrand Proofs.C06_defined Proofs.C06_spectrum Proofs.C09_compose.
 Local Open Scope R_scope.
 
 (* rate in [0,1] and visibility in [-1,1] at EVERY delay, for every complex array on a square grid with identical axes
@@ -88,6 +89,39 @@ Theorem C09_source_range : forall n g f gs tau,
   0 <= src_hom_rate g f gs tau None <= 1.
 Proof. exact src_hom_rate_range. Qed.
 
+(* ---- composition with the generated spectrum model (Gen/PMIntegrand.v, C06): the amplitude is no longer abstract.
+   jsa_of Q S (ws, wi) = pm_jsa Q (S ws wi): JointSpectrum::jsa of the setup whose scalars at (ws, wi) are S ws wi, Q the quadrature
+   (any functional); exchange_tie S Ssw: Ssw is the with_swapped_signal_idler twin; pm_physical: C06's definedness conditions
+   (positive mode areas, exit angles short of grazing), required at the grid points only. *)
+(* an exchange-symmetric setup (its own twin: same polarisation/indices, waists, angles, waist positions for signal and idler; the
+   exact condition is [self_exchange S]: S wi ws = pm_swap (S ws wi)): zero-delay HOM rate exactly 0, visibility 1 — every
+   quadrature, crystal, length, and on EVERY grid (the exchanged-argument array coincides with the first one point by point; on a
+   square grid with identical axes the sampled matrix is moreover symmetric, C09_twin_array_is_transpose) *)
+Theorem C09_symmetric_setup_dip : forall Q S g,
+  self_exchange S -> physical_on S g ->
+  jsi_norm ROps (grid_len g) (tabulate (jsa_of Q S) g) <> 0 ->
+  setup_hom_rate_series (jsa_of Q S) g (0 :: nil) = 0 :: nil /\ setup_hom_visibility (jsa_of Q S) g 0 = (0, 1).
+Proof. exact symmetric_setup_dip. Qed.
+
+Theorem C09_symmetric_setup_amplitude : forall Q S ws wi,
+  self_exchange S -> pm_physical (S ws wi) -> jsa_of Q S wi ws = jsa_of Q S ws wi.
+Proof. exact symmetric_setup_amplitude. Qed.
+
+(* any setup, any grid: the second array of the wrappers (sp.jsa(wi, ws) on the grid) is the exchanged twin's jsa_range on the same
+   grid, so setup-level HOM = array-level HOM of (jsa_range of the setup, jsa_range of the twin); on a square grid with identical
+   axes that second array is also the transposed first one *)
+Theorem C09_setup_is_array_with_twin : forall Q S Ssw g taus,
+  exchange_tie S Ssw -> physical_on Ssw g ->
+  setup_hom_rate_series (jsa_of Q S) g taus = hom_rate_series g (tabulate (jsa_of Q S) g) (tabulate (jsa_of Q Ssw) g) taus /\
+  forall delta_t, setup_hom_visibility (jsa_of Q S) g delta_t =
+    (delta_t, visibility_of_rate (hom_rate g (tabulate (jsa_of Q S) g) (tabulate (jsa_of Q Ssw) g) delta_t None)).
+Proof. exact setup_hom_is_array_hom_with_twin. Qed.
+
+Theorem C09_twin_array_is_transpose : forall Q S Ssw n g,
+  square_sym n g -> exchange_tie S Ssw -> physical_on Ssw g ->
+  forall k, (k < n * n)%nat -> tabulate (jsa_of Q Ssw) g k = transpose_arr n (tabulate (jsa_of Q S) g) k.
+Proof. exact twin_array_is_transpose. Qed.
+
 (* ---- the code paths outside the main model (Model/C09_Total.v): slices of any length, zero norm, empty delay list *)
 (* hom_rate panics (slice index out of bounds) exactly when one of the two slices is shorter than the grid *)
 Theorem C09_total_panic_iff : forall g f gs tau norm,
@@ -142,6 +176,9 @@ Theorem C09_pyth_twin : forall (n : nat) (x0 h : R) (k r m0 : Z),
 Proof. exact hom_rate_Qpyth_correct. Qed.
 
 (* ---- non-vacuity *)
+Example C09_nonvacuous_self_exchange : self_exchange pm_sym_example.
+Proof. exact pm_sym_example_self_exchange. Qed.
+
 Example C09_nonvacuous_grid : square_sym 3 (sym_grid 3 1 2).
 Proof. repeat split. Qed.
 
@@ -166,6 +203,10 @@ Print Assumptions C09_setup_range.
 Print Assumptions C09_source_is_model.
 Print Assumptions C09_source_wrappers.
 Print Assumptions C09_source_range.
+Print Assumptions C09_symmetric_setup_dip.
+Print Assumptions C09_symmetric_setup_amplitude.
+Print Assumptions C09_setup_is_array_with_twin.
+Print Assumptions C09_twin_array_is_transpose.
 Print Assumptions C09_total_panic_iff.
 Print Assumptions C09_total_default_norm.
 Print Assumptions C09_total_is_model.
